@@ -38,7 +38,10 @@ def node_class(kind, max_depth, base="Schema", extra_opts=None, optional_v=False
            "dictd": "Dict[Decimal, '%s'] = Field(default_factory=dict)" % name,
            "dictb": "Dict[bool, '%s'] = Field(default_factory=dict)" % name,
            "dictn": "Dict[Optional[str], '%s'] = Field(default_factory=dict)" % name,
-           "listopt": "List[Optional['%s']] = Field(default_factory=list)" % name}[kind]
+           "listopt": "List[Optional['%s']] = Field(default_factory=list)" % name,
+           # a union inside a union: the inner one is evaluated in the (already strict) stages of the outer one
+           "listoo": "Optional[List[Optional['%s']]] = None" % name,
+           "dictou": "Optional[Dict[str, Union[int, '%s']]] = None" % name}[kind]
     okw = dict(extra_opts or {})
     if max_depth is not None:
         okw["max_depth"] = max_depth
@@ -61,7 +64,7 @@ def tree_input(rng, kind, depth, bad_leaf=False, width=2, empty_leaf=False):
         return node
     def child(d):
         return tree_input(rng, kind, d, bad_leaf, width, empty_leaf)
-    if kind in ("list", "listopt"):
+    if kind in ("list", "listopt", "listoo"):
         n = rng.randint(1, width)
         deep = rng.randrange(n)      # the deepest child sits at a random index (0 included)
         node["link"] = [child(depth - 1) if i == deep else child(rng.randint(1, depth - 1)) for i in range(n)]
@@ -69,8 +72,8 @@ def tree_input(rng, kind, depth, bad_leaf=False, width=2, empty_leaf=False):
         n = rng.randint(1, width)
         deep = rng.randrange(n)
         node["link"] = tuple(child(depth - 1) if i == deep else child(rng.randint(1, depth - 1)) for i in range(n))
-    elif kind in ("dict", "dictf", "dictd", "dictb", "dictn"):
-        pool = {"dict": ["", "a", "b", "0"], "dictf": [1.5, "2.5", 0.0, 3], "dictd": ["1.5", 0, "2"],
+    elif kind in ("dict", "dictf", "dictd", "dictb", "dictn", "dictou"):
+        pool = {"dict": ["", "a", "b", "0"], "dictou": ["", "a", "z", "0"], "dictf": [1.5, "2.5", 0.0, 3], "dictd": ["1.5", 0, "2"],
                 "dictb": [True, False, "true", 0], "dictn": [None, "a", "", None]}[kind]
         pool = list(dict.fromkeys(pool))
         keys = rng.sample(pool, rng.randint(1, min(width, len(pool))))
